@@ -29,7 +29,13 @@ import (
 	"pgregory.net/rapid"
 )
 
-const verifRoot = "/verif"
+// verifRoot is where replays and known_findings.json live: the directory of the driver that started us.
+var verifRoot = func() string {
+	if d := os.Getenv("VERIF_ROOT"); d != "" {
+		return d
+	}
+	return "/verif"
+}()
 
 func init() {
 	logrus.SetOutput(io.Discard)
